@@ -6,6 +6,10 @@ ids = [json.loads(l)["id"] for l in open(os.path.join(VERIF, "properties.jsonl")
 HOOK_COMMITS = ["424bc8f"]
 
 CLAIMED = {
+ "C06": dict(category="proof", design="DESIGN.md §6 C06",
+   text="Coq theorems over operation histories: the transcript a verifier run ends with is the literal schedule (m, A_I1, A_O1, S1, phase separator, only user data/challenge requests from closures, A_I2, A_O2, S2, y, z, T_1..T_6, u, x, t_x, t_x_blinding, e_blinding, w, ipp separator, n', then L_j, R_j, u_j per round) and every challenge is the oracle's value on the prefix ending with its request (C06_verifier_follows_schedule, all programs, all proofs); on an honest run the prover's transcript is the same list, challenges coincide and follow-up challenges on the returned transcripts agree (C06_roles_in_sync_and_prover_follows_schedule); the op lists determine every absorbed object (C06_unambiguous). Correspondence K6: the instrumented Merlin log of every prover/verifier run is compared operation by operation (kind, label, payload) with the model's transcript.",
+   note="Trusted: Coq kernel; RO idealisation of Merlin/STROBE/ChaCha/rand; instrumented Merlin copy (add-only logging); payload byte encodings are arkworks'.",
+   technique="machine-checked proof in Coq (transcripts as explicit operation lists; prefix/oracle facts) + operation-by-operation correspondence with an instrumented Merlin"),
  "C14": dict(category="proof", design="DESIGN.md §6 C14",
    text="The constants (both moduli, a, b, generator, cofactor) and the body of mul_by_a are REGENERATED from the Rust source on every run (translator), and the Coq theorems are re-checked against them: q and r = 2^255-19 are prime (Pratt certificates checked by vm_compute, soundness via a proved Lucas theorem), the generator satisfies the curve equation and the curve is non-singular, mul_by_a_gen x = a*x for every x (ring), r.G = infinity and G <> infinity by a Jacobian double-and-add ladder, cofactor 1, and the Hasse interval around q+1 contains exactly one multiple of r. PARTIAL for '#E = r exactly': associativity of the group law, Lagrange and Hasse are not formalised (no EC library installed). K12 compares the compiled crate's constants and mul_by_a (value and representation edge cases) with the translation.",
    note="Trusted: Coq kernel (vm_compute for certificates and the ladder); the translator (guarded by K12); the three un-formalised textbook facts named above; Jacobian formulas are the standard ones (their agreement with the affine law is not proved).",
